@@ -21,6 +21,8 @@ RULE = (
     "goes through the REAL check(); accepted ones are lowered by the real compiler and the arithmetic/conversion ops are "
     "read from the Hugr. PLUS every binary operator x every mixed (left, right) kind pair: accepted iff the wider kind's homogeneous form is, "
     "lowering = homogeneous lowering + exactly the widening conversion of the narrower operand, and not returnable at the narrower kind. "
+    "PLUS subscript indices (expected kind int): index of each kind in read position and as an assignable place (element assignment, aug-assign, "
+    "nested, swap, lending an element to a borrowing function), with the lowered program interpreted for every in-range index value. "
     "PLUS non-widening neighbours (oracle only): bool (variable, literals, comparison, not), str, None, angle, tuple and the "
     "narrowing numeric pairs as actual types against nat/int/float/bool/angle in 10 positions (assignment, return, argument, tuple/array element, "
     "struct field, both operand sides, aug-assign, comptime argument): must all be rejected. non-trivial = off-diagonal pair; distinct by canonical case. The space of kind pairs is finite "
@@ -83,7 +85,8 @@ def translate(ctx):
         f"  kindLt := ({L(lt[0])}, {L(lt[1])}, {L(lt[2])})\n"
         f"  coerceCond := ({L(cond[0])}, {L(cond[1])}, {L(cond[2])})\n"
         f"  methodTemplate := {L(cond[3])}\n"
-        "  methods := [\n" + ",\n".join(f"    ({L(t)}, {L(n)}, {L(i)})" for t, n, i in meths) + "]\n\n"
+        "  methods := [\n" + ",\n".join(f"    ({L(t)}, {L(n)}, {L(i)})" for t, n, i in meths) + "]\n"
+        f"  setitemIndexSlot := {L(nt.setitem_index_slot())}\n\n"
         "end GuppyVerif.C16Gen\n"
     )
     old = open(GEN).read() if os.path.exists(GEN) else None
@@ -323,6 +326,7 @@ def tie(ctx):
                       "widening use rejected: comptime(1) where float is expected is a type mismatch", {"source": src})
     _tie_neighbours(ctx)
     _tie_operator_operands(ctx)
+    _tie_index_places(ctx)
 
 
 # ------------------------------------------------------------------ operator operands as a coercion position (all operators)
@@ -417,6 +421,116 @@ def _tie_operator_operands(ctx):
                                       f"`a {op} b` with a: {l}, b: {r} is accepted as a {narrow}: the {k} operand was narrowed implicitly",
                                       {"case": dict(case, ret=narrow), "source": src2})
     ctx.extra["operator_operand_programs"] = n
+
+
+# ------------------------------------------------------------------ subscript indices: read AND assignable place
+INDEX_PRELUDE = "from guppylang.std.quantum import qubit, h, cx\n"
+
+
+def _index_progs(a, x):
+    yield "idx_get", f"@guppy\ndef f(xs: array[int, 3], b: {a}) -> int:\n    return xs[{x}]\n"
+    yield "idx_set", f"@guppy\ndef f(xs: array[int, 3], b: {a}) -> None:\n    xs[{x}] = 7\n"
+    yield "idx_aug", f"@guppy\ndef f(xs: array[int, 3], b: {a}) -> None:\n    xs[{x}] += 5\n"
+    yield "idx_nested", f"@guppy\ndef f(xss: array[array[int, 2], 2], b: {a}) -> None:\n    xss[{x}][{x}] = 7\n"
+    yield "idx_swap", f"@guppy\ndef f(xs: array[int, 3], b: {a}) -> None:\n    xs[{x}], xs[0] = xs[0], xs[{x}]\n"
+    yield "idx_borrow", f"@guppy\ndef f(qs: array[qubit, 3], b: {a}) -> None:\n    h(qs[{x}])\n"
+    yield "idx_borrow2", f"@guppy\ndef f(qs: array[qubit, 3], b: {a}) -> None:\n    cx(qs[0], qs[{x}])\n"
+
+
+def _index_python(pos, k):
+    """what Python does for index value k (the statement: the widened index has the same value)"""
+    xs = [10, 20, 30]
+    if pos == "idx_get":
+        return ("ret", xs[k])
+    if pos == "idx_set":
+        xs[k] = 7
+    elif pos == "idx_aug":
+        xs[k] += 5
+    elif pos == "idx_swap":
+        xs[k], xs[0] = xs[0], xs[k]
+    return ("arr", xs)
+
+
+def _tie_index_places(ctx):
+    """An index is a coercion position whose expected type is the `int` parameter of `__getitem__` / `__setitem__`.  The same index
+    expression must be treated alike when the subscript is only READ and when it is an ASSIGNABLE place (element assignment,
+    augmented assignment, nested subscripts, swap, lending an element to a borrowing function): nat and int accepted (nat widened by
+    the no-op), float rejected.  REAL = check() + lowering (+ the lowered program interpreted for every in-range index value),
+    MODEL = `indexRead` / `indexPlace` of Model/Coerce.lean through the regenerated cfg, ORACLE = the statement."""
+    import feed
+    import hugr_interp as hi
+    shapes = {"param": "b", "arith": "(b + b - b)", "local": "c"}
+    replies = dict(zip(KINDS, ctx.driver(DRIVER, [f"index {a}" for a in KINDS])))
+    n = n_val = 0
+    for a in KINDS:
+        read_m, write_m, place_m = [x.strip() for x in replies[a].split("|")]
+        for sh, x in shapes.items():
+            for pos, src in _index_progs(a, x):
+                if sh == "local":
+                    src = src.replace(":\n    ", f":\n    c = b\n    ", 1)
+                case = {"index_kind": a, "pos": pos, "shape": sh}
+                key = "input:" + json.dumps(case, sort_keys=True)
+                m_out = read_m if pos == "idx_get" else place_m
+                mcls = "ok" if m_out in ("same", "noop") else ("mismatch" if m_out == "mismatch" else "stuck:" + m_out)
+                acc = a in ("nat", "int")
+                try:
+                    m = feed.load(src, prelude=feed.PRELUDE + INDEX_PRELUDE)
+                except BaseException as ex:  # noqa: BLE001
+                    ctx.broke(f"index probe does not load: {case}: {type(ex).__name__}")
+                    continue
+                try:
+                    kind, exc = feed.check_outcome(m.f)
+                    rcls = "ok" if kind == "ok" else ({"TypeMismatchError": "mismatch"}.get(feed.err_class(exc), "other:" + feed.err_class(exc))
+                                                     if kind == "user" else "crash:" + type(exc).__name__)
+                    n += 1
+                    ctx.count(case, nontrivial=a != "int", kind=f"index:{pos}:{a}:{rcls.split(':')[0]}")
+                    line = [l for l in src.strip().splitlines() if x in l][-1].strip()
+                    rep = {"index_case": case, "source": src, "real": rcls, "model": replies[a]}
+                    if (rcls == "ok") != acc:
+                        ctx.violation(key, (f"a {a} index is rejected ({rcls}) where the subscript is {'read' if pos == 'idx_get' else 'an assignable place'} "
+                                            f"although nat -> int is a widening (and the read path `xs[n]` accepts it): `{line}`") if acc else
+                                      f"a float index is accepted (implicit narrowing float -> int): `{line}`", rep)
+                        continue
+                    if rcls != mcls:
+                        ctx.broke(f"correspondence Model/Coerce.indexPlace (+Gen/C16Coerce) vs checker on {case}: real={rcls} model={m_out}")
+                    if rcls != "ok":
+                        continue
+                    try:
+                        g = feed.lower(m.f)
+                    except BaseException as ex:  # noqa: BLE001
+                        ctx.violation(key, f"accepted index place crashes the compiler: {type(ex).__name__}: `{line}`", rep)
+                        continue
+                    convs = sorted(o for o in feed.ops_of(g) if o in CONV)
+                    if convs:
+                        ctx.violation(key, f"index of kind {a} is converted by {convs}; nat -> int must be the value-preserving no-op: `{line}`", dict(rep, convs=convs))
+                        continue
+                    if pos in ("idx_get", "idx_set", "idx_aug", "idx_swap"):
+                        for k in (0, 1, 2):
+                            kk = k if sh != "arith" else k
+                            try:
+                                r = hi.run(g.hugr, "f", [[10, 20, 30], kk], ret_shape=("int" if pos == "idx_get" else None))
+                            except (hi.Unsupported, hi.OutOfFuel):
+                                break
+                            except hi.InterpError as ex:
+                                ctx.broke(f"interpreter error on index probe {case}: {ex}")
+                                break
+                            want = _index_python(pos, kk)
+                            if r.status != "value":
+                                got = ("panic", r.msg)
+                            elif want[0] == "ret":
+                                got = ("ret", r.value if not isinstance(r.value, (tuple, list)) else r.value[0])
+                            else:
+                                arr = r.inouts[0] if getattr(r, "inouts", None) else r.value
+                                got = ("arr", list(arr) if isinstance(arr, (list, tuple)) else arr)
+                            n_val += 1
+                            if got != want:
+                                ctx.violation(key + f" @{kk}", f"`{line}` with index value {kk} on [10, 20, 30]: the lowered program gives {got}, Python {want}",
+                                              dict(rep, index=kk, real=repr(got), oracle=repr(want)))
+                                break
+                finally:
+                    feed.unload(m)
+    ctx.extra["index_place_programs"] = n
+    ctx.extra["index_place_values"] = n_val
 
 
 # ------------------------------------------------------------------ non-widening neighbours (oracle only)
